@@ -2,6 +2,7 @@ import clichecks
 import concchecks
 import depgraphs
 import diskchecks
+import extractchecks
 import histories
 import layouts
 import lspchecks
@@ -21,12 +22,15 @@ def warm_layouts():
     C.run_tlc("ImportWalk", "ImportWalk.cfg", workers=8, timeout=3600)
     C.run_tlc("Discovery", "Discovery.cfg", workers=8, timeout=3600)
     C.run_tlc("Imports", "Imports.cfg", workers=12, timeout=3600)
+    for g in ("deco", "params", "body", "doc"):
+        C.run_tlc("Extract", "Extract_%s.cfg" % g, workers=4, timeout=3600)
     C.run_tlc("Plugins", "Plugins.cfg", workers=4, timeout=3600)
 
 
 CHECKS = {
     "C01": layouts.check_c01,
     "C02": layouts.check_c02,
+    "C03": extractchecks.check_c03,
     "C04": layouts.check_c04,
     "C05": layouts.check_c05,
     "C06": histories.check_c06,
